@@ -276,7 +276,7 @@ impl Iterator for TimeSeries {
     }
 
     fn size_hint(&self) -> (usize, Option<usize>) {
-        (self.len(), Some(self.len() + 1))
+        (self.len(), Some(self.len().saturating_add(1)))
     }
 }
 
